@@ -46,7 +46,13 @@ def coq_case(line):
 def main(tier, seed, replay):
     replay_text = open(replay).read() if replay else None   # before Result() clears build/replay
     res = L.Result(PROP, tier, seed)
+    # Gen/Readers.v, Gen/Builders2.v from /repo's current checkpoint.go / ctlog.go (signature reader, builders)
+    gen_ok, gen_log = L.regenerate()
     ok, cov = L.proof_stage(res, PROP, PROP_V, thorough=(tier == "thorough"))
+    cov["generated_from_source"] = {"files": list(L.GENERATED), "ok": gen_ok, "log": gen_log[-500:]}
+    if not gen_ok:
+        p = L.write_replay(PROP, "translation.txt", "the Go source could not be translated (tie by translation broken):\n" + gen_log)
+        res.violation(p, "translation of the Go source failed", no_input=True)
     if ok:
         L.coq_make(["Ckpt/Run.vo"])
     hexe, hlog = L.build_harness("ckpt")
